@@ -446,6 +446,11 @@ func (e *Explorer) runOne(prefix []Choice, expand bool) {
 			if !ok {
 				e.Stats.Nondeterminism++
 				fmt.Fprintf(os.Stderr, "fsx: replay divergence at step %d: %v not enabled in %v (scenario %s)\n", step, ch, choices, e.Sc.Name)
+				if os.Getenv("VERIF_FSX_DEBUG") != "" {
+					for _, p := range ex.procs {
+						fmt.Fprintf(os.Stderr, "  %s: %s\n", p.Name, strings.Join(p.log, " ; "))
+					}
+				}
 				e.finish(ex)
 				return
 			}
